@@ -43,7 +43,9 @@ func c08Snapshot(r *Runner, bucket, key string) string {
 	_, g := r.Get(bucket, key)
 	_, h := r.Head(bucket, key)
 	_, lo := r.List(ListReq{Bucket: bucket, ClampedMaxKeys: 1000})
-	return g + " | " + h + " | " + lo.Obs
+	// the '/'-delimited listing too: on the fs backends a directory left behind shows as a common prefix
+	_, ld := r.List(ListReq{Bucket: bucket, HasDelim: true, Delim: "/", ClampedMaxKeys: 1000})
+	return g + " | " + h + " | " + lo.Obs + " | " + ld.Obs
 }
 
 func runC08(c *Ctx) {
@@ -51,7 +53,7 @@ func runC08(c *Ctx) {
 	if c.Thorough() {
 		nCases = 4000
 	}
-	c.R.Rule = fmt.Sprintf("%d upload cases per backend instance and integrity setting drawn from the matrix body (0–3000 B) × Content-MD5 {absent, right, wrong, malformed base64, 15/17-byte digest, empty} × declared length {=, −1, +1, 0, absent, non-numeric, negative} × key length {short, 1023, 1024, 1025 bytes; multi-byte keys of 1024, 1025 and 1200 bytes (600 characters)} × metadata size {small, limit−1, limit, limit+1} × {plain, aws-chunked with right/wrong decoded length} × {over an existing object, absent key} × reader {EOF, failing after k bytes, k ∈ {0,1,len/2,len−1,len}}; each case snapshots GET+HEAD+listing before and after; compared with the Lean model (Front.createObject) and the specification (acknowledged, or rejected with the snapshot unchanged); the last bytes arrive with or before io.EOF; then %d part uploads per instance over the matrix body × Content-MD5 × declared length × part number {1, 2, 10000, 10001, 0, junk} against a pending upload (ListParts + the object snapshotted before and after; model Front.uploadPartReq; specification: acknowledged with the MD5 of the bytes iff digest and length are right, otherwise refused and nothing changed); non-trivial = distinct case the model rejects", nCases, nCases/4)
+	c.R.Rule = fmt.Sprintf("%d upload cases per backend instance and integrity setting drawn from the matrix body (0–3000 B) × Content-MD5 {absent, right, wrong, malformed base64, 15/17-byte digest, empty} × declared length {=, −1, +1, 0, absent, non-numeric, negative} × key length {short, 1023, 1024, 1025 bytes; multi-byte keys of 1024, 1025 and 1200 bytes (600 characters)} × metadata size {small, limit−1, limit, limit+1} × {plain, aws-chunked with right/wrong decoded length} × {over an existing object, absent key} × reader {EOF, failing after k bytes, k ∈ {0,1,len/2,len−1,len}}; each case snapshots GET+HEAD+listing (plain and '/'-delimited; keys also in directories of their own) before and after; compared with the Lean model (Front.createObject) and the specification (acknowledged, or rejected with the snapshot unchanged); the last bytes arrive with or before io.EOF; then %d part uploads per instance over the matrix body × Content-MD5 × declared length × part number {1, 2, 10000, 10001, 0, junk} against a pending upload (ListParts + the object snapshotted before and after; model Front.uploadPartReq; specification: acknowledged with the MD5 of the bytes iff digest and length are right, otherwise refused and nothing changed); non-trivial = distinct case the model rejects", nCases, nCases/4)
 	for _, kind := range c.kinds(impl.AllKinds) {
 		for _, integ := range []bool{true, false} {
 			limit := 300
@@ -88,6 +90,10 @@ func c08Case(c *Ctx, r *Runner, inst *impl.Instance, bucket string, integ bool, 
 	key := "existing"
 	if c.Rng.Intn(2) == 0 {
 		key = fmt.Sprintf("fresh-%d", c.Rng.Intn(4))
+		if c.Rng.Intn(3) == 0 {
+			// a key in directories nothing else lives in
+			key = fmt.Sprintf("newdir-%d/sub/obj", c.Rng.Intn(1000))
+		}
 	}
 	keyVariant := "short"
 	switch c.Rng.Intn(12) {
